@@ -64,7 +64,21 @@ type ecase struct {
 	Categorical struct {
 		Theta []rat `json:"theta"`
 	} `json:"categorical"`
+	NegBin struct {
+		Defined bool  `json:"defined"`
+		P       []rat `json:"p"`
+	} `json:"negbin"`
+	TranslatedMu rat `json:"translated_mu"`
 }
+
+// must mirror Estimators!NBRs / TransC
+var nbRs = []float64{1, 3.5, 0.4}
+
+const transC = 3.0
+
+// common offsets added to all log-weights: the weighted estimate does not depend on the scale of the
+// weights; EM hands over log-posteriors, which are all hugely negative for a component far from the data
+var gammaOffsets = []float64{-800, 800, -5000}
 
 // must mirror Estimators!SigmaMins / LambdaMaxs
 var sigmaMins = []float64{1.0 / 1000, 3.0 / 2}
@@ -117,12 +131,15 @@ func replay(args []string) {
 		x := NewDenseFloat64Vector(xs)
 		gamma := NewDenseFloat64Vector(gs)
 		report := func(family, mode, what string, exp, got interface{}) {
+			if fs, ok := got.([]float64); ok {
+				got = fmt.Sprint(fs) // NaN / Inf are not JSON numbers
+			}
 			vh.Mismatch(out, vh.M{"engine": "estim", "family": family, "mode": mode, "what": what},
 				vh.M{"case": c, "expected": exp, "observed": got})
 		}
 		// run one estimator in the three modes; check returns the observed parameter vector
 		drive := func(family string, mk func() (interface{}, error), check func(mode string, p []float64, pdf ScalarPdf)) {
-			modes := []string{"weighted", "batch-weighted", "clone-weighted"}
+			modes := []string{"weighted", "batch-weighted", "clone-weighted", "weighted-offset0", "weighted-offset1", "weighted-offset2", "batch-weighted-offset0"}
 			if c.UnitWeights {
 				modes = append(modes, "unweighted", "batch-unweighted")
 			}
@@ -139,6 +156,13 @@ func replay(args []string) {
 				var pdf ScalarPdf
 				msg := vh.Try(func() {
 					switch mode {
+					case "weighted-offset0", "weighted-offset1", "weighted-offset2":
+						off := gammaOffsets[int(mode[len(mode)-1]-'0')]
+						g2 := make([]float64, n)
+						for i := range g2 {
+							g2[i] = gs[i] + off
+						}
+						err = e.(scalarEst).EstimateOnData(x, NewDenseFloat64Vector(g2), ThreadPool{})
 					case "weighted", "clone-weighted":
 						err = e.(scalarEst).EstimateOnData(x, gamma, ThreadPool{})
 					case "unweighted":
@@ -150,6 +174,8 @@ func replay(args []string) {
 								var g ConstScalar
 								if mode == "batch-weighted" {
 									g = ConstFloat64(gs[i])
+								} else if mode == "batch-weighted-offset0" {
+									g = ConstFloat64(gs[i] + gammaOffsets[0])
 								}
 								if err = b.NewObservation(ConstFloat64(xs[i]), g, ThreadPool{}); err != nil {
 									break
@@ -255,6 +281,34 @@ func replay(args []string) {
 				}
 				localMax("geometric", mode, pdf, []float64{0}, []float64{1})
 			})
+		// ---- negative binomial with fixed r
+		if c.NegBin.Defined {
+			for b, r := range nbRs {
+				r := r
+				pb := c.NegBin.P[b].f()
+				drive("negbin", func() (interface{}, error) { return scalarEstimator.NewNegativeBinomialEstimator(r, 0.5) },
+					func(mode string, p []float64, pdf ScalarPdf) {
+						if len(p) != 2 || !near(p[0], r) || !near(p[1], pb) {
+							report("negbin", mode, "parameters", vh.M{"r": r, "p": pb}, p)
+							return
+						}
+						localMax("negbin", mode, pdf, []float64{r, 0}, []float64{r, 1})
+					})
+			}
+		}
+		// ---- translation wrapper around the normal estimator: estimates on x + c
+		drive("translation-normal", func() (interface{}, error) {
+			inner, err := scalarEstimator.NewNormalEstimator(0.5, 1.5, sigmaMins[0])
+			if err != nil {
+				return nil, err
+			}
+			return scalarEstimator.NewTranslationEstimator(inner, transC)
+		}, func(mode string, p []float64, pdf ScalarPdf) {
+			varB := c.Normal.VarBounded[0].f()
+			if len(p) != 2 || !near(p[0], c.TranslatedMu.f()) || !near(p[1]*p[1], varB) {
+				report("translation-normal", mode, "parameters", vh.M{"mu": c.TranslatedMu.f(), "sigma": math.Sqrt(varB), "c": transC}, p)
+			}
+		})
 		// ---- categorical (parameters are stored on log scale: compare exp)
 		drive("categorical", func() (interface{}, error) {
 			th := make([]float64, len(c.Categorical.Theta))
@@ -322,7 +376,7 @@ func replayVec(args []string) {
 			gs[i] = math.Log(float64(o.W))
 		}
 		gamma := NewDenseFloat64Vector(gs)
-		modes := []string{"weighted", "batch-weighted"}
+		modes := []string{"weighted", "batch-weighted", "weighted-offset0", "weighted-offset1", "weighted-offset2", "batch-weighted-offset0"}
 		if c.UnitWeights {
 			modes = append(modes, "unweighted", "batch-unweighted")
 		}
@@ -344,6 +398,13 @@ func replayVec(args []string) {
 					switch mode {
 					case "weighted":
 						err = est.EstimateOnData(xs, gamma, ThreadPool{})
+					case "weighted-offset0", "weighted-offset1", "weighted-offset2":
+						off := gammaOffsets[int(mode[len(mode)-1]-'0')]
+						g2 := make([]float64, n)
+						for i := range g2 {
+							g2[i] = gs[i] + off
+						}
+						err = est.EstimateOnData(xs, NewDenseFloat64Vector(g2), ThreadPool{})
 					case "unweighted":
 						err = est.EstimateOnData(xs, nil, ThreadPool{})
 					default:
@@ -352,6 +413,8 @@ func replayVec(args []string) {
 								var g ConstScalar
 								if mode == "batch-weighted" {
 									g = ConstFloat64(gs[i])
+								} else if mode == "batch-weighted-offset0" {
+									g = ConstFloat64(gs[i] + gammaOffsets[0])
 								}
 								if err = est.NewObservation(xs[i], g, ThreadPool{}); err != nil {
 									break
@@ -424,6 +487,9 @@ type emev struct {
 	Maxsteps int    `json:"maxsteps"`
 	Scenario string `json:"scenario"`
 	Seed     int64  `json:"seed"`
+	What     string `json:"what"` // twin events: which two quantities the contract says are equal
+	A        int    `json:"a"`
+	B        int    `json:"b"`
 }
 
 func normalData(rng *rand.Rand, n int, sep float64) []float64 {
@@ -651,6 +717,159 @@ func tiedHmmScenario(name string, mk func(rng *rand.Rand) []ScalarEstimator, dat
 	}}
 }
 
+// ------------------------------------------------------------------ further HMM / mixture scenarios
+
+type hmmOpts struct {
+	chunk   int  // HmmEstimator.ChunkSize: every sequence is cut into pieces of this length (the last one shorter)
+	fixedTr bool // OptimizeTransitions = false: the transition matrix must stay what it was
+	short   bool // sequences of length 1..4, a length-1 sequence after a longer one included
+}
+
+func cut(xs []ConstVector, c int) []ConstVector {
+	if c <= 0 {
+		return xs
+	}
+	r := []ConstVector{}
+	for _, x := range xs {
+		for j := 0; j < x.Dim(); j += c {
+			to := j + c
+			if to > x.Dim() {
+				to = x.Dim()
+			}
+			v := make([]float64, to-j)
+			for k := range v {
+				v[k] = x.Float64At(j + k)
+			}
+			r = append(r, NewDenseFloat64Vector(v))
+		}
+	}
+	return r
+}
+
+func hmmOptScenario(name string, mk func(rng *rand.Rand) []ScalarEstimator, data func(rng *rand.Rand, n int) []float64, o hmmOpts) emScenario {
+	return emScenario{name, func(rng *rand.Rand, epsilon float64, maxSteps int, emit func(emev)) (float64, error) {
+		nseq := 2 + rng.Intn(3)
+		xs := make([]ConstVector, nseq)
+		for i := range xs {
+			n := 5 + rng.Intn(9)
+			if o.short {
+				n = 1 + rng.Intn(4)
+				if i == 0 {
+					n = 3 + rng.Intn(3)
+				} else if i == 1 {
+					n = 1
+				}
+			}
+			xs[i] = NewDenseFloat64Vector(data(rng, n))
+		}
+		// what the estimator is documented to see: the pieces, as independent sequences
+		pieces := cut(xs, o.chunk)
+		var est *vectorEstimator.HmmEstimator
+		hook := generic.BaumWelchHook{Value: func(h generic.BasicHmm, i int, l, e float64) {
+			d, _ := est.GetEstimate()
+			emit(emev{E: "hook", I: i, Nan: math.IsNaN(l), Lik: sc(l), Eps: sc(e), Recomp: sc(vectorLL(d, pieces))})
+		}}
+		a := 0.2 + 0.6*rng.Float64()
+		b := 0.2 + 0.6*rng.Float64()
+		mkEst := func(h generic.BaumWelchHook) (*vectorEstimator.HmmEstimator, error) {
+			pi := NewDenseFloat64Vector([]float64{0.6, 0.4})
+			tr := NewDenseFloat64Matrix([]float64{a, 1 - a, b, 1 - b}, 2, 2)
+			return vectorEstimator.NewHmmEstimator(pi, tr, nil, nil, nil, mk(rand.New(rand.NewSource(int64(a*1e9)))), epsilon, maxSteps, h)
+		}
+		var err error
+		est, err = mkEst(hook)
+		if err != nil {
+			return 0, err
+		}
+		est.ChunkSize = o.chunk
+		est.OptimizeTransitions = !o.fixedTr
+		if err := est.EstimateOnData(xs, nil, ThreadPool{}); err != nil {
+			return 0, err
+		}
+		d, _ := est.GetEstimate()
+		final := vectorLL(d, pieces)
+		if o.fixedTr {
+			// p = (pi, tr, emissions...): entries 2..5 are the transition matrix
+			p := d.GetParameters()
+			dev := 0.0
+			for k, w := range []float64{a, 1 - a, b, 1 - b} {
+				dev = math.Max(dev, math.Abs(math.Exp(p.Float64At(2+k))-w))
+			}
+			emit(emev{E: "twin", What: "transition matrix after Baum-Welch with OptimizeTransitions=false vs before", A: sc(dev), B: 0})
+		}
+		if o.chunk > 0 {
+			// the same run on sequences cut by hand
+			twin, err2 := mkEst(generic.BaumWelchHook{})
+			if err2 == nil {
+				if err2 = twin.EstimateOnData(pieces, nil, ThreadPool{}); err2 == nil {
+					d2, _ := twin.GetEstimate()
+					emit(emev{E: "twin", What: "final likelihood with ChunkSize vs on sequences cut by hand", A: sc(final), B: sc(vectorLL(d2, pieces))})
+				}
+			}
+			if err2 != nil {
+				emit(emev{E: "twin", What: "run on sequences cut by hand failed: " + err2.Error(), A: 0, B: 2000000000})
+			}
+		}
+		return final, nil
+	}}
+}
+
+func negbins(rng *rand.Rand) []ScalarEstimator {
+	e1, _ := scalarEstimator.NewNegativeBinomialEstimator(3.5, 0.2+0.2*rng.Float64())
+	e2, _ := scalarEstimator.NewNegativeBinomialEstimator(0.4, 0.6+0.3*rng.Float64())
+	return []ScalarEstimator{e1, e2}
+}
+
+// components wrapped by the Translation / LogTransform estimators (batch interface of the inner estimator)
+func wrappedNormals(rng *rand.Rand) []ScalarEstimator {
+	i1, _ := scalarEstimator.NewNormalEstimator(1+rng.Float64(), 1+rng.Float64(), 1e-2)
+	i2, _ := scalarEstimator.NewNormalEstimator(0.5+rng.Float64(), 0.5+rng.Float64(), 1e-2)
+	e1, _ := scalarEstimator.NewTranslationEstimator(i1, 2.0)
+	e2, _ := scalarEstimator.NewLogTransformEstimator(i2, 1.0)
+	return []ScalarEstimator{e1, e2}
+}
+
+// DiscreteMixtureEstimator stores repeated values once; on data whose distinct values share integer
+// parts (half-integer lattice) it must still be the mixture EM of the data: same trajectory as MixtureEstimator
+func discreteLatticeScenario() emScenario {
+	return emScenario{"dmix-normal-halfinteger", func(rng *rand.Rand, epsilon float64, maxSteps int, emit func(emev)) (float64, error) {
+		n := 12 + rng.Intn(30)
+		x := make([]float64, n)
+		for i := range x {
+			x[i] = float64(rng.Intn(13)-6) / 2
+		}
+		w1, w2 := 1+rng.Float64(), 1+rng.Float64()
+		s := rng.Int63()
+		var est *scalarEstimator.DiscreteMixtureEstimator
+		hook := generic.EmHook{Value: func(m generic.BasicMixture, i int, l, e float64) {
+			d, _ := est.GetEstimate()
+			emit(emev{E: "hook", I: i, Nan: math.IsNaN(l), Lik: sc(l), Eps: sc(e), Recomp: sc(scalarLL(d, x))})
+		}}
+		var err error
+		est, err = scalarEstimator.NewDiscreteMixtureEstimator([]float64{w1, w2}, normals(rand.New(rand.NewSource(s))), epsilon, maxSteps, hook)
+		if err != nil {
+			return 0, err
+		}
+		data := NewDenseFloat64Vector(x)
+		if err := est.SetData(data, data.Dim()); err != nil {
+			return 0, err
+		}
+		if err := est.Estimate(nil, ThreadPool{}); err != nil {
+			return 0, err
+		}
+		d, _ := est.GetEstimate()
+		final := scalarLL(d, x)
+		twin, err2 := scalarEstimator.NewMixtureEstimator([]float64{w1, w2}, normals(rand.New(rand.NewSource(s))), epsilon, maxSteps)
+		if err2 == nil {
+			if err2 = twin.EstimateOnData(NewDenseFloat64Vector(x), nil, ThreadPool{}); err2 == nil {
+				d2, _ := twin.GetEstimate()
+				emit(emev{E: "twin", What: "final likelihood of DiscreteMixtureEstimator vs MixtureEstimator on the same data", A: sc(final), B: sc(scalarLL(d2, x))})
+			}
+		}
+		return final, nil
+	}}
+}
+
 func emScenarios() []emScenario {
 	return []emScenario{
 		mixtureScenario("smix-normal", normals, func(r *rand.Rand) []float64 { return normalData(r, 10+r.Intn(30), 2) }),
@@ -666,6 +885,17 @@ func emScenarios() []emScenario {
 		tiedHmmScenario("vhmm-tied-categorical", categoricals, func(r *rand.Rand) []float64 { return countData(r, 6+r.Intn(12), 2) }),
 		tiedHmmScenario("vhmm-tied-normal", normals, func(r *rand.Rand) []float64 { return normalData(r, 6+r.Intn(12), 2) }),
 		hmmScenario("vhmm-nested-mixture", nestedMixtures, func(r *rand.Rand) []float64 { return normalData(r, 6+r.Intn(12), 2) }, nil, nil),
+		hmmOptScenario("vhmm-categorical-chunked", categoricals, func(r *rand.Rand, n int) []float64 { return countData(r, n, 2) }, hmmOpts{chunk: 3}),
+		hmmOptScenario("vhmm-normal-chunked", normals, func(r *rand.Rand, n int) []float64 { return normalData(r, n, 2) }, hmmOpts{chunk: 4}),
+		hmmOptScenario("vhmm-categorical-fixed-transitions", categoricals, func(r *rand.Rand, n int) []float64 { return countData(r, n, 2) }, hmmOpts{fixedTr: true}),
+		hmmOptScenario("vhmm-categorical-short", categoricals, func(r *rand.Rand, n int) []float64 { return countData(r, n, 2) }, hmmOpts{short: true}),
+		hmmOptScenario("vhmm-normal-short", normals, func(r *rand.Rand, n int) []float64 { return normalData(r, n, 2) }, hmmOpts{short: true}),
+		mixtureScenario("smix-negbin", negbins, func(r *rand.Rand) []float64 { return countData(r, 10+r.Intn(30), 9) }),
+		mixtureScenario("smix-wrapped-normal", wrappedNormals, func(r *rand.Rand) []float64 {
+			x := countData(r, 10+r.Intn(30), 12)
+			return x
+		}),
+		discreteLatticeScenario(),
 	}
 }
 
@@ -844,8 +1074,14 @@ func record(args []string) {
 		evs := []emev{{E: "begin", Epsilon: sc(epsilon), Maxsteps: maxSteps, Scenario: s.name, Seed: rseed, I: epsIdx}}
 		var final float64
 		var err error
+		post := []emev{}
 		msg := vh.Try(func() {
 			final, err = s.run(rng, epsilon, maxSteps, func(e emev) {
+				if e.E == "twin" {
+					// observed after the run has returned
+					post = append(post, e)
+					return
+				}
 				evs = append(evs, e)
 				if len(evs) > maxIterations {
 					panic(fmt.Sprintf("no convergence after %d iterations (last lik %d eps %d)", maxIterations, e.Lik, e.Eps))
@@ -863,6 +1099,7 @@ func record(args []string) {
 			evs = append(evs, emev{E: "return", Err: true})
 		} else {
 			evs = append(evs, emev{E: "return", Err: err != nil, Final: sc(final)})
+			evs = append(evs, post...)
 		}
 		for _, e := range evs {
 			trace.Put(e)
